@@ -172,6 +172,11 @@ pub fn into_tokens(c: char, it: &mut Peekable<Chars>, state: &mut State) -> LexR
                     _ => break,
                 }
             }
+            if PYTHON_RESERVED.contains(&id_or_operation.as_str()) {
+                // the name would be copied into the output, where it is not a name
+                let msg = format!("'{id_or_operation}' is a reserved word in Python and cannot be a name");
+                return Err(LexErr::new(state.pos, None, &msg));
+            }
             create(state, as_op_or_id(id_or_operation))
         }
         '"' => {
@@ -266,6 +271,12 @@ fn next_and_create(
 fn create(state: &mut State, token: Token) -> LexResult<Vec<Lex>> {
     Ok(state.token(token))
 }
+
+/// Words that are keywords of Python but not of Mamba: as names they would make the output invalid.
+const PYTHON_RESERVED: [&str; 12] = [
+    "assert", "async", "await", "del", "elif", "except", "finally", "global", "lambda", "nonlocal",
+    "try", "yield",
+];
 
 fn as_op_or_id(string: String) -> Token {
     match string.as_ref() {
